@@ -31,7 +31,7 @@ class ContinuousSpaceAgent(Agent):
     @property
     def position(self) -> np.ndarray:
         """Position of the agent."""
-        return self.space.agent_positions[self.space._agent_to_index[self]]
+        return self.space.agent_positions[self.space._agent_to_index[self]].copy()
 
     @position.setter
     def position(self, value: np.ndarray) -> None:
